@@ -9,6 +9,6 @@ EXTENDS $mod
 ASSUME PrintT(<<"EVAL", $expr>>)
 ====
 EOT
-echo "CONSTANT GuardedPop = TRUE" > $d/Eval.cfg
+printf "CONSTANTS\n GuardedPop = TRUE\n RegexFixed = TRUE\n" > $d/Eval.cfg
 (cd $d && tlc -metadir $d/m -config Eval.cfg Eval.tla 2>&1 | grep -A30 "EVAL\|rror" | grep -v "^Finished\|^Starting")
 rm -rf $d
